@@ -258,6 +258,12 @@ Section Machine.
     end.
 End Machine.
 
+(* What the heading hash sees of a world, for the worlds of the replayer: w = <compiler> + 10 * <version of
+   a local header found in a cincdir directory> + 100 * <version of a header reached only through
+   --cflags -I / of a `## cfile` extra C file>.  The target-info probe sees the compiler; since 304728c
+   ([hashed], scraped into Gen.HEADERS_HASHED) the hash also covers the cincdir headers. *)
+Definition vis (hashed : bool) (w : Z) : Z := if hashed then w mod 100 else w mod 10.
+
 (* hash function used for extraction and witnesses: the identity on triples (injective) *)
 Definition H_id (code cc cmd : Z) : hashv := (code, cc, cmd).
 Definition H_inj (H : Z -> Z -> Z -> hashv) : Prop :=
